@@ -238,3 +238,22 @@ func MergeFloat64(f func() float64) float64 { return f() }
 // switch to another runnable goroutine (one deterministic schedule).  No-op
 // natively (real goroutines run).
 func Goroutines(on bool) {}
+
+// Schedules(k) is Goroutines(true) plus SCHEDULE EXPLORATION: every lock,
+// unlock, atomic, channel send, map access and goroutine start is a preemption
+// point at which the engine may switch to any other runnable goroutine, at
+// most k times per path (which goroutine runs next after a block or an exit
+// is a free choice as well).  Every such schedule is a path.  No-op natively:
+// a schedule-dependent counterexample is replayed by repetition (see
+// NativeRounds), so Observe/Reach only schedule-independent facts.
+func Schedules(k int) {}
+
+// NativeRounds returns 1 under the engine and n in the native replay: the
+// harness repeats its concurrent experiment that many times natively (real
+// threads, the Go scheduler picks the interleavings) so that a schedule the
+// engine found has a chance to show up.
+func NativeRounds(n int) int { return n }
+
+// NativeInt returns engine under the engine and native in the native replay
+// (e.g. more goroutines natively to widen a race window).
+func NativeInt(engine, native int) int { return native }
